@@ -89,7 +89,7 @@ package goldilocks
 //@   ensures true
 
 //@ func (p *Chip) checkCollected(api frontend.API) (err error)
-//@   props C06
+//@   props C05 C06 C14 C17
 //@   circuit sound-only
 //@   requires chipok(p)
 //@   requires forall(k, 0, len(p.rangeCheckCollected), 1 <= p.rangeCheckCollected[k].bits && p.rangeCheckCollected[k].bits <= 253)
@@ -103,7 +103,7 @@ package goldilocks
 //@                p.rangeCheckCollected[k].v < pow2(p.rangeCheckCollected[k].bits))
 
 //@ func New(api frontend.API) (res *Chip)
-//@   props C06
+//@   props C05 C06 C14 C17
 //@   circuit sound-only
 //@   ensures chipok(res)
 //@   ensures implies(res.rangeCheckerType == COMMIT, deferred("goldilocks.Chip.checkCollected", res))
